@@ -4,3 +4,6 @@ package taskctl
 
 // verifGate is a no-op unless built with the "verif" tag (see verif_hooks.go).
 func (s *Scheduler) verifGate() {}
+
+// verifInit is a no-op unless built with the "verif" tag (see verif_hooks.go).
+func (s *Scheduler) verifInit() {}
